@@ -459,3 +459,32 @@ Example C12_ex_pomo :
   match unbatchify [2%Z; 3%Z] (rows_of (expand_stages [2; 3] [10; 20])) with
   | Some u => get [1; 1; 2] u | None => None end = Some (Leaf (20, [2; 1])).
 Proof. reflexivity. Qed.
+
+From RL4CO Require Import Decoding.StartsSample.
+
+(* ================================================================ additions (mutation sweep 2): sample_n_random_actions counts the
+   admissible actions for its replacement test WITHOUT column 0 but draws among all admissible columns *)
+(* the code draws without replacement iff every instance has n admissible actions among columns 1.. *)
+Theorem C12_sample_replace_false_iff :
+  forall (n : nat) (masks : list (list bool)),
+  sample_replace n masks = false <-> (forall m : list bool, In m masks -> n <= count_true (tl m)).
+Proof. exact sample_replace_false_iff. Qed.
+Print Assumptions C12_sample_replace_false_iff.
+
+(* column 0 admissible and exactly n admissible actions in some instance: with replacement *)
+Theorem C12_sample_replace_col0_boundary :
+  forall (n : nat) (masks : list (list bool)) (m : list bool),
+  In m masks -> hd false m = true -> count_true m = n -> sample_replace n masks = true.
+Proof. exact sample_replace_col0_boundary. Qed.
+Print Assumptions C12_sample_replace_col0_boundary.
+
+(* REFUTED on a single-row batch: n = 3 admissible actions (column 0 among them), a draw within the contract of torch.multinomial(replacement=True) repeats a start *)
+Theorem C12_sample_n_col0_duplicates_refuted :
+  exists (n : nat) (masks : list (list bool)) (draw : nat -> nat -> nat) (sel : list nat),
+    Forall (fun m : list bool => n <= count_true m) masks /\
+    draw_positive n masks draw /\
+    sample_replace n masks = true /\
+    sample_n_random_actions n masks draw = Some sel /\ starts_of sel (length masks) n 0 = [2; 0; 2].
+Proof. exact sample_n_col0_duplicates_refuted. Qed.
+Print Assumptions C12_sample_n_col0_duplicates_refuted.
+
